@@ -547,7 +547,7 @@ func enumC09(tier Tier, yield func(C09Case)) {
 
 var c09RecvGen = TreeGen{MaxDepth: 2, MaxWidth: 4, Budget: 12, Kinds: stackKinds,
 	Leaf: func(t *rapid.T) Val { return genPrimVal(t, true, true) }, Conds: true, CondExprStack: true, NilLeaves: true, EmptyStacks: true,
-	Options: true, Caps: true, IndexOpts: true, MutexOpt: true, FIFOOpt: true, Wraps: true, ZooLeaves: true, OddEncap: true, Ambient: true, WideRuns: true, NoNestAfter: true}
+	Options: true, Caps: true, IndexOpts: true, MutexOpt: true, FIFOOpt: true, Wraps: true, ZooLeaves: true, OddEncap: true, Ambient: true, Pasts: true, WideRuns: true, NoNestAfter: true}
 
 func genC09(t *rapid.T, tier Tier) C09Case {
 	c := C09Case{Rich: rapid.Bool().Draw(t, "rich"), Invalid: rapid.IntRange(0, 4).Draw(t, "invalid") == 0}
